@@ -37,7 +37,7 @@ TIMELINE_CAPABLE = {'hand_made', 'manifest_a', 'manifest_n'}
 TIMING_GROUP = ('start', 'depth', 'leeway', 'mup', 'timeline', 'patch')
 
 ALPHABET = {
-    'depth': [None, '30', '8', '60'],
+    'depth': [None, '30', '8', '60', '3600'],
     'leeway': [None, '0', '2', '60'],
     'start': [None, 'today', 'month', 'epoch', 'now', 'explicit', 'explicit+01:00'],
     'mup': [None, '-1', '4', '30'],
